@@ -1,17 +1,125 @@
-"""E2: bounded contract replay (labelled stand-in, never counted as proved)."""
-import os, json, subprocess, time
+"""E2: bounded contract replay (labelled stand-in, never counted as proved).
+
+On every run the replay crate is regenerated under build/replay/<pid>/ from the working tree
+of the repository: every file of entrait_macros/src is copied byte for byte (glue modules from
+replay/glue/ are *appended* so that private functions are reachable the way the crate's own
+`#[cfg(test)] mod tests` reaches them), lib.rs becomes main.rs after the mechanical rewrite R1
+below, and replay/contracts/*.rs become the module vx_contracts.
+
+R1 (lib.rs -> main.rs), needed because proc_macro::TokenStream only exists inside a compiler:
+  `extern crate proc_macro;` dropped; `#[proc_macro_attribute]` dropped;
+  `proc_macro::TokenStream` / `use proc_macro::TokenStream` -> proc_macro2;
+  `syn::parse_macro_input!(x as T)` -> `match syn::parse2::<T>(x) { Ok(v) => v, Err(e) => return e.to_compile_error() }`
+  (which is the documented expansion of that macro, modulo the TokenStream type).
+"""
+import os, json, subprocess, time, shutil, re, glob
 
 ROOT = os.path.dirname(os.path.dirname(os.path.abspath(__file__)))
+REPO = os.environ.get("VX_REPO", "/repo")
+SRC = os.path.join(REPO, "entrait_macros", "src")
+BUILD = os.path.join(ROOT, "build")
+TARGET = os.path.join(BUILD, "replay-target")
+ENV = dict(os.environ, CARGO_NET_OFFLINE="true", CARGO_TARGET_DIR=TARGET)
+
+
+def rewrite_lib(text):
+    t = text
+    t = t.replace("extern crate proc_macro;", "")
+    t = t.replace("#[proc_macro_attribute]", "")
+    t = t.replace("use proc_macro::TokenStream;", "use proc_macro2::TokenStream;")
+    t = t.replace("proc_macro::TokenStream", "proc_macro2::TokenStream")
+    t = re.sub(r"syn::parse_macro_input!\(\s*(\w+)\s+as\s+([\w:]+)\s*\)",
+               r"match syn::parse2::<\2>(\1) { Ok(v) => v, Err(e) => return e.to_compile_error() }", t)
+    t = t.replace("#![forbid(unsafe_code)]", "#![forbid(unsafe_code)]\n#![allow(dead_code, unused)]")
+    t += "\n#[path = \"vx_contracts/mod.rs\"]\nmod vx_contracts;\nfn main() { vx_contracts::main() }\n"
+    return t
+
+
+def generate(dest):
+    if os.path.isdir(dest):
+        shutil.rmtree(dest)
+    os.makedirs(os.path.join(dest, "src"))
+    shutil.copy(os.path.join(ROOT, "replay", "Cargo.toml"), dest)
+    lock = os.path.join(ROOT, "replay", "Cargo.lock")
+    if os.path.exists(lock):
+        shutil.copy(lock, dest)
+    for dp, dn, fn in os.walk(SRC):
+        for f in fn:
+            if not f.endswith(".rs"):
+                continue
+            rel = os.path.relpath(os.path.join(dp, f), SRC)
+            text = open(os.path.join(dp, f)).read()
+            if rel == "lib.rs":
+                out = os.path.join(dest, "src", "main.rs")
+                text = rewrite_lib(text)
+            else:
+                out = os.path.join(dest, "src", rel)
+                g = os.path.join(ROOT, "replay", "glue", rel)
+                if os.path.exists(g):
+                    text = text + "\n// ---- appended by /verif (glue, append-only) ----\n" + open(g).read()
+            os.makedirs(os.path.dirname(out), exist_ok=True)
+            open(out, "w").write(text)
+    cdir = os.path.join(dest, "src", "vx_contracts")
+    os.makedirs(cdir)
+    for f in glob.glob(os.path.join(ROOT, "replay", "contracts", "*.rs")):
+        shutil.copy(f, cdir)
+
+
+def build(dest, log):
+    p = subprocess.run(["cargo", "build", "--offline", "--quiet"], cwd=dest, env=ENV, stdout=subprocess.PIPE, stderr=subprocess.PIPE, text=True)
+    return p.returncode, p.stderr
 
 
 def setup(log):
+    log("vx setup: replay harness (warm build)")
+    dest = os.path.join(BUILD, "replay", "setup")
+    generate(dest)
+    rc, err = build(dest, log)
+    if rc != 0:
+        log(err[-3000:])
+        return 2
+    # keep the lock file that cargo resolved offline next to the template
+    lk = os.path.join(dest, "Cargo.lock")
+    if os.path.exists(lk) and not os.path.exists(os.path.join(ROOT, "replay", "Cargo.lock")):
+        shutil.copy(lk, os.path.join(ROOT, "replay", "Cargo.lock"))
     return 0
 
 
 def run(pid, tier, seed, log):
-    return {"status": "ok", "contracts": [], "conformance": None}
+    dest = os.path.join(BUILD, "replay", pid)
+    t0 = time.time()
+    generate(dest)
+    rc, err = build(dest, log)
+    if rc != 0:
+        return {"status": "build-failed", "message": "replay crate does not build against this tree: " + err[-1500:], "contracts": []}
+    out = os.path.join(dest, "result.json")
+    exe = os.path.join(TARGET, "debug", "vx-replay")
+    # the binary name is shared between per-property crates; copy to avoid races between parallel checks
+    exe_local = os.path.join(dest, "vx-replay")
+    shutil.copy(exe, exe_local)
+    p = subprocess.run([exe_local, "--prop", pid, "--tier", tier, "--out", out], stdout=subprocess.PIPE, stderr=subprocess.PIPE, text=True, timeout=3600)
+    if p.returncode != 0 or not os.path.exists(out):
+        return {"status": "crashed", "message": "replay binary failed: " + (p.stderr or p.stdout)[-1500:], "contracts": []}
+    r = json.load(open(out))
+    r["status"] = "ok"
+    r["wall_s"] = time.time() - t0
+    return r
 
 
 def replay_input(d, log):
-    print("no replay harness built yet")
-    return 2
+    fi = d.get("failing_input") or {}
+    pid = d["property"]
+    dest = os.path.join(BUILD, "replay", pid)
+    generate(dest)
+    rc, err = build(dest, log)
+    if rc != 0:
+        print("replay crate does not build:", err[-1000:])
+        return 2
+    exe = os.path.join(TARGET, "debug", "vx-replay")
+    p = subprocess.run([exe, "--prop", pid, "--tier", "quick", "--only", (d.get("detail") or {}).get("contract", ""), "--case", fi.get("input", ""), "--out", os.path.join(dest, "replay.json")],
+                       stdout=subprocess.PIPE, stderr=subprocess.PIPE, text=True)
+    print(p.stdout[-3000:])
+    r = json.load(open(os.path.join(dest, "replay.json")))
+    bad = sum(len(c["failures"]) for c in r["contracts"])
+    print("replayed on the real code: %s" % ("contract FAILS on this input" if bad else "contract holds on this input"))
+    return 1 if bad else 0
